@@ -777,14 +777,24 @@ class Prover:
         self.timeout_ms = 6000 if tier == 'quick' else 30000
         self.observer = None
 
-    @staticmethod
-    def discharge(run, f, npc, nax, budget_ms):
+    OPEN = {'t': 0.0}          # seconds spent so far (whole check) in queries that did not come back `unsat`
+    OPEN_LIMIT = 60.0
+
+    @classmethod
+    def discharge(cls, run, f, npc, nax, budget_ms):
         """z3 resource-limit budget (deterministic: budget_ms * 2500 rlimit units); the wall clock is only a >= 20x safety net.
-        An `unknown` is retried once in a fresh solver context with three times the budget."""
+        An `unknown` is retried once in a fresh solver context with three times the budget.  On a failing tree the run time is
+        bounded: once OPEN_LIMIT seconds went into open queries the remaining budgets shrink 20x and nothing is retried (a query
+        that runs out of budget is undecided, never a verdict; on a tree where everything is proved this never triggers)."""
+        tight = cls.OPEN['t'] > cls.OPEN_LIMIT
+        if tight:
+            budget_ms = max(int(budget_ms / 20), 100)
         v, m, dt = E.discharge(run, f, npc, nax, timeout_ms=max(2 * budget_ms, 6000), rlimit=int(budget_ms) * 2500)
-        if v == 'unknown':
+        if v == 'unknown' and not tight:
             v, m, dt2 = E.discharge(run, f, npc, nax, timeout_ms=max(6 * budget_ms, 6000), rlimit=int(budget_ms) * 7500)
             dt += dt2
+        if v != 'unsat':
+            cls.OPEN['t'] += dt
         return v, m, dt
 
     def _collect(self, entries, post, skip=(), setup=None, timeout_ms=None, want_model=False):
@@ -1523,6 +1533,7 @@ def ubr_replay(name, rec):
 
 
 BATTERY = {}
+T_START = [0.0]
 CLAUSE_OF = {     # obligation-name fragment -> clause name checked by the native battery
     'continuous_in_unit_cube': 'continuous_in_unit_cube', 'continuous_not_nan': 'continuous_in_unit_cube', 'pool_continuous': 'continuous_in_unit_cube',
     'categorical': 'categorical_is_valid_category_index', 'padding_never_leaks.continuous': 'padding_never_leaks.continuous',
@@ -1544,6 +1555,9 @@ def battery_replay(name, rec):
         r = STANDIN_RES.get(sn)
         if frag in name and isinstance(r, dict) and r.get('held') is False:
             return {'driver': 'replay/c19_replay.py witness %s' % sn, 'failing_input': r.get('failing_input'), 'bound': r.get('bound')}, True
+    if 'res' not in BATTERY and BATTERY.get('tier') == 'quick' and time.time() - T_START[0] > 240:
+        # run-time bound of the quick tier on a failing tree: no (minutes long) native battery any more; the verdict does not depend on it
+        return {'driver': 'replay/c19_replay.py battery', 'skipped': 'quick-tier run-time bound reached'}, None
     if 'res' not in BATTERY:
         BATTERY['res'] = run_native(REPLAY, ['battery'] + (['quick'] if BATTERY.get('tier') == 'quick' else []), timeout=7200)
     res = BATTERY['res']
@@ -1877,6 +1891,56 @@ def nan_obligations(chk, pv, modes, classes):
                            detail=dict(detail, reason='NaN is among the possible value classes; the native battery found no failing input'))
 
 
+def pool_entry(concrete=None, batch_given=True):
+    """VectorizedEagleStrategyFactory.__call__ with SYMBOLIC numbers of features, batch size and max_pool_size (eagle_config.pool_size
+    == 0, the programmatic pool size): pure integer arithmetic of the real factory code."""
+    def entry(it):
+        run = it.run
+        d = dims(run, ['nfeat', 'B', 'maxpool'], concrete, {'nfeat': 1, 'B': 1, 'maxpool': 1})
+        conv, Dc, Dk = make_converter(it, 0, [], 0, 0)
+        c = EagleCtx()
+        c.d, c.batch_given = d, batch_given
+        run.c19 = c
+        FD = klass(ES, 'FeatureDimensions')
+        fd = Obj(FD, {'categorical_sizes': [], 'n_feature_dimensions_with_padding': CC(d['nfeat'], 0), 'n_feature_dimensions': CC(d['nfeat'], 0)})
+        E.MODELS[ES + ':compute_feature_dimensions_from_converter'] = lambda it_, a, k: fd       # contract: the feature counts of the converter
+        try:
+            cfg = eagle_config(it, symbolic=False)
+            cfg.attrs['max_pool_size'] = d['maxpool']
+            cfg.attrs['pool_size'] = 0
+            fac = it.call(klass(ES, 'VectorizedEagleStrategyFactory'), [], {'eagle_config': cfg})
+            return it.call(fac, [conv], {'suggestion_batch_size': d['B'] if batch_given else None})
+        finally:
+            E.MODELS.pop(ES + ':compute_feature_dimensions_from_converter', None)
+    return entry
+
+
+def pool_post(path):
+    N = 'C19.eagle.factory.'
+    if path.kind == 'end':
+        return []
+    if path.kind != 'return':
+        return [(N + 'returns', z3.BoolVal(False))]
+    run = path.run
+    c = run.c19
+    st = path.value
+    try:
+        pool, batch = st.attrs['pool_size'], st.attrs['batch_size']
+    except (AttributeError, KeyError):
+        return [(N + 'pool_size_multiple_of_batch', z3.BoolVal(False))]
+    pool, batch = zi(J.unwrap0(pool)), zi(J.unwrap0(batch))
+    if conc(pool) is not None and conc(batch) is not None:
+        mult = z3.BoolVal(conc(batch) >= 1 and conc(pool) % conc(batch) == 0)
+    else:
+        # exists k. pool == k * batch; candidates for k: 1 (batch := pool) and the values rounded by math.ceil in the factory
+        ks = [z3.IntVal(1)] + list(getattr(run, 'jx_ceils', []))
+        mult = z3.Or(*[pool == k * batch for k in ks])
+    out = [(N + 'pool_size_multiple_of_batch', mult), (N + 'pool_size_at_least_one_batch', z3.And(batch >= 1, pool >= batch))]
+    if c.batch_given:
+        out.append((N + 'batch_size_is_the_requested_one', batch == zi(c.d['B'])))
+    return out
+
+
 FACTORY_LAYOUTS = [(2, 1, 0, 0, 5), (0, 2, 1, 0, 25), (3, 0, 0, 1, 7), (1, 3, 2, 3, 1), (1, 0, 0, 0, 25)]      # (n_cont, n_cat, pad_cat, pad_cont, batch)
 
 
@@ -1929,6 +1993,9 @@ def main(tier):
     chk.assume('prior features handed to the optimizer: the continuous features of unpadded prior rows are arbitrary FINITE reals (also outside the unit '
                'cube; a trial that lacks a parameter value gives NaN, which is outside the claim); their categorical features are arbitrary (an index '
                'outside the categories is the recorded out-of-vocabulary finding); padded rows / positions may hold anything (NaN, -1)')
+    chk.assume('class invariant of VectorizedEagleStrategy that its methods rely on (batch arithmetic, dynamic_slice_in_dim): pool_size is a positive multiple '
+               'of batch_size -- established by the factory for eagle_config.pool_size == 0 (C19.eagle.factory.pool_size_multiple_of_batch, proved for '
+               'symbolic feature counts / batch / max_pool_size); an explicitly configured eagle_config.pool_size must itself be such a multiple')
     chk.assume('the Eagle configuration knobs are arbitrary finite numbers; prob_same_category_without_perturbation in (0, 1); the search space '
                'has at least one feature; pool_size >= batch_size >= 1')
     for mod, qual in ((VB, UBR), (VB, CALL), (VB, '_optimizer_to_model_input'), (VB, 'optimizer_to_model_input_single_array'),
@@ -1943,6 +2010,8 @@ def main(tier):
                       (RV, 'RandomVectorizedStrategy.suggest'), (RV, 'random_strategy_factory')):
         chk.function(mod, qual)
     pv = Prover(chk, tier)
+    Prover.OPEN['t'] = 0.0
+    T_START[0] = time.time()
     E.MODELS.pop(UBR_KEY, None)
     BATTERY.clear()
     BATTERY['tier'] = tier
@@ -2028,6 +2097,9 @@ def main(tier):
            findings=known_d, replay=battery_replay)
     pv.run('RandomVectorizedStrategy.init_state', [('prior', random_init_entry(True)), ('no prior', random_init_entry(False))], random_init_post,
            findings=open_findings(chk, ['C19.random.init_state.uses_prior_features']), replay=battery_replay)
+    pv.run('VectorizedEagleStrategyFactory.__call__', [('batch given', pool_entry()), ('batch None', pool_entry(batch_given=False))], pool_post,
+           twins=[('n_features=20,batch=25,max_pool_size=30', pool_entry({'nfeat': 20, 'B': 25, 'maxpool': 30})),
+                  ('n_features=3,batch=40,max_pool_size=100', pool_entry({'nfeat': 3, 'B': 40, 'maxpool': 100}))], replay=battery_replay)
     factories(chk, pv, quick)
 
     chk.note('The symbolic results are functions of the PRNG key: jax.random.split/uniform/laplace are modelled as functions of their key, and '
